@@ -14,10 +14,11 @@ import (
 
 // Case is one tree printed by Grammar.tla with its renderings.
 type Case struct {
-	Tree map[string]any `json:"tree"`
-	Min  []string       `json:"min"`
-	Full []string       `json:"full"`
-	One  [][]string     `json:"one"`
+	Tree  map[string]any `json:"tree"`
+	Min   []string       `json:"min"`
+	Full  []string       `json:"full"`
+	Atoms []string       `json:"atoms"`
+	One   [][]string     `json:"one"`
 }
 
 // Slot is a place in a statement where an expression can stand.
